@@ -110,6 +110,26 @@ pub fn run_c03_bulk(ctx: &Ctx, acc: &Mutex<Acc>) -> Option<Violation> {
     })
 }
 
+pub const C06_PL_RULE: &str = "power-loss part (Sync mode): for every state between two filesystem calls and every non-empty subset of the files holding bytes not yet covered by fsync/fdatasync, the image in which those files are rolled back to their last synced bytes (directory operations kept) is materialised, and every file under cas/ in it must be at a canonical path and hash to its path (a blob may be absent, never present with other bytes); recovery itself is judged by C09, not here. non-trivial = the lost set contains a CAS blob, a live WAL segment or the index; distinct by (case, epoch, cut, subset)";
+
+pub fn run_c06_powerloss(ctx: &Ctx, acc: &Mutex<Acc>) -> Option<Violation> {
+    crate::proc::ensure_shim();
+    let cases = ctx.tier.scale(6, 10);
+    let lenses = E2Lenses { powerloss: true, cashash: true, pl_nojudge: true, ..Default::default() };
+    let base = part_for("C09", ctx.tier).bias;
+    let bias = E2Bias { sync_only: true, big: 6, max_epochs: 2, ..base };
+    campaign(ctx, acc, "powerloss-cashash", "E2PL", cases, 40, |_shard| gen::e2_case(&bias), move |case: &E2Case| {
+        let mut m = run_e2_dyn(case, lenses)?;
+        m.class("powerloss_cashash_case");
+        Ok(m)
+    })
+}
+
+pub fn replay_e2_pl(case: serde_json::Value) -> R<CaseMeta> {
+    let case: E2Case = serde_json::from_value(case).expect("harness: bad E2 replay case");
+    run_e2_dyn(&case, E2Lenses { powerloss: true, cashash: true, pl_nojudge: true, ..Default::default() })
+}
+
 pub fn replay_e2(prop: &str, case: serde_json::Value) -> R<CaseMeta> {
     let case: E2Case = serde_json::from_value(case).expect("harness: bad E2 replay case");
     let part = part_for(prop, Tier::Quick);
